@@ -38,8 +38,12 @@ PROBES = ("tie_between_sources", "unequal_lengths", "cotenants>1", "ended_with_e
 
 
 def compare_values(out, spec, run, ref):
-    a = project_values(run.log)
-    b = project_values(ref.log)
+    # what the consumer sees - and what the owner of a regular generator among the sources gets when it reads on afterwards
+    # (not when the consumer asked again after the end: the stdlib's zip / compress then poll their first argument once
+    # more - and take an item from it - where a finished generator does nothing)
+    rest = () if spec.p.get("again") else ("rest",)
+    a = project_values(run.log) + [ev for ev in run.log if ev[0] in rest]
+    b = project_values(ref.log) + [ev for ev in ref.log if ev[0] in rest]
     pos = first_diff(a, b)
     if pos is not None:
         ea = a[pos] if pos < len(a) else None
